@@ -348,10 +348,17 @@ func (sel *Selection) beginEdit(r NodeRequest, bubble bool) error {
 	if err := sel.Browser.Triggers.beginEdit(r); err != nil {
 		return err
 	}
+	var begun []NodeRequest
 	for {
 		if err := r.Selection.Node.BeginEdit(r); err != nil {
+			// whoever was told an edit begins is told it ended, the caller will not
+			// do that for an edit that never began
+			for i := len(begun) - 1; i >= 0; i-- {
+				begun[i].Selection.Node.EndEdit(begun[i])
+			}
 			return err
 		}
+		begun = append(begun, r)
 		if r.Selection.parent == nil || !bubble {
 			break
 		}
@@ -363,9 +370,12 @@ func (sel *Selection) beginEdit(r NodeRequest, bubble bool) error {
 
 func (sel *Selection) endEdit(r NodeRequest, bubble bool) error {
 	r.Selection = sel
+	// everyone that was told an edit begins is told it ended even when one of them
+	// fails, the first failure is reported
+	var firstErr error
 	for {
-		if err := r.Selection.Node.EndEdit(r); err != nil {
-			return err
+		if err := r.Selection.Node.EndEdit(r); err != nil && firstErr == nil {
+			firstErr = err
 		}
 		if r.Selection.parent == nil || !bubble {
 			break
@@ -373,10 +383,10 @@ func (sel *Selection) endEdit(r NodeRequest, bubble bool) error {
 		r.Selection = r.Selection.parent
 		r.EditRoot = false
 	}
-	if err := sel.Browser.Triggers.endEdit(r); err != nil {
-		return err
+	if err := sel.Browser.Triggers.endEdit(r); err != nil && firstErr == nil {
+		firstErr = err
 	}
-	return nil
+	return firstErr
 }
 
 func (sel *Selection) Delete() (err error) {
